@@ -163,6 +163,24 @@ class C18:
                 si, k_, v_ = rnd.choice(tweaks)
                 twin["program"][si][1][k_] = v_
                 progs[1] = twin
+        if rnd.random() < 0.12:
+            # twins that differ only by the matching-cost band, on one multiband world, with sub-pixel matching
+            from sim.world import BAND_NAMES
+
+            wb = worlds[0]
+            wb["bands"] = 3
+            wb["disp_right"] = wb["disp_right"] if wb["disp"]["kind"] == "grid" else None
+            p0 = pipeline.gen_program(rnd, wb, HPROFILE)
+            p0 = [st for st in p0 if programs.kind_of(st[0]) != "aggregation"]
+            p0[0][1].update({"matching_cost_method": rnd.choice(["zncc", "census"]), "subpix": rnd.choice([2, 4]),
+                             "window_size": 3, "band": BAND_NAMES[0]})
+            for st in p0:
+                if "RGB_bands" in st[1]:
+                    st[1]["RGB_bands"] = {"R": "r", "G": "g", "B": "b"}
+            p1 = copy.deepcopy(p0)
+            p1[0][1]["band"] = rnd.choice(BAND_NAMES[1:3])
+            progs = [{"world": 0, "program": p0}, {"world": 0, "program": p1}] + progs[2:]
+            npg = len(progs)
         bad = {"world": 0, "program": [["disparity", {"disparity_method": "wta"}],
                                         ["matching_cost", {"matching_cost_method": "sad"}]]}
         ops = []
